@@ -664,6 +664,7 @@ func (p *Parser) parseCreateIndex(unique bool) (*ast.CreateIndexStatement, error
 				col.NullsLast = true
 				p.advance()
 			} else if p.isType(models.TokenTypeFirst) {
+				col.NullsFirst = true
 				p.advance()
 			}
 		}
